@@ -10,3 +10,10 @@ CHECKS["C05"] = dict(
     text="For every glob over {a . / * \\} up to length 4 (quick) / 6 (thorough) plus seeded random longer globs, z3 decides for ALL paths of ANY length that narrow-reading ⊆ compiled matcher ⊆ wide-reading, separately for LF-free and LF-containing paths, and that a multi-glob item is the union of its globs. Bounded in the glob, unbounded in the path; counterexamples are replayed through AnnotationsItem.matches before being reported.",
     note="Trusted: z3 5.1 regex solver, re._parser as definition of pattern syntax, vf/re2z3.py (validated each run on solver-produced member/non-member witnesses through the real matches()). The method matches() calls is read from its AST. Four known findings (LF artefact, escaped asterisk, star before escape, globstar swallowing '/') are listed in known_findings.json and excused only in their failing direction.",
 )
+
+CHECKS["C17"] = dict(
+    engine="RZ3",
+    technique="SMT (z3 regular-expression theory): language equivalence between python-debian's compiled dep5 matcher and the matcher of the REUSE.toml produced by the real converter, paths unbounded, dep5 globs enumerated to a bound",
+    text="For every valid dep5 glob over {a . / * ? \\} up to length 4 (quick) / 5 (thorough) plus random longer ones, the real pipeline dep5 -> Copyright -> toml_from_dep5 -> ReuseTOML.from_toml is run and z3 decides, for ALL normalised project-relative paths of any length, that the dep5 matcher and the converted matcher accept the same paths; for two globs per paragraph and two paragraphs the last-match-wins attribution languages are compared the same way, and the attributed copyright/licence/precedence are compared on solver-produced witnesses through the two real reuse_info_of methods.",
+    note="Trusted: z3, re._parser, vf/re2z3.py, python-debian/tomlkit executed concretely. Outside: write-then-unlink ordering of the CLI command (planned XH obligation), whole lint report. Known findings: '?' wildcard, doubled escaped asterisk, LF, and the REUSE.toml matcher's own C05 findings inherited through '*/' -> '**/'.",
+)
